@@ -73,7 +73,7 @@ class ExtractError(Exception):
 # They are applied to the copied text only when the function's directive names them.
 REWRITES = {
     "break_value": (
-        r"\bbreak\s+(Ok\(\(\)\));", r"return \1;",
+        r"\bbreak\s+(Ok\([\w:()]*\));", r"return \1;",
         "`break <expr>;` inside a loop that is the tail expression of the function body == `return <expr>;`"),
     "write_lit": (
         r"\bwrite!\(\s*(\w+)\s*,\s*(\"(?:[^\"\\{}]|\\.)*\")\s*\)", r"vfmt::lit(\1, \2)",
